@@ -48,6 +48,9 @@ class ListFile:
     def close(self):
         self.closed = True
 
+    def isatty(self):
+        return False
+
 
 def make_file(lines):
     if all(isinstance(l, str) for l in lines):
